@@ -130,7 +130,10 @@ def run_parse(job, tmp):
             out.append({"error": f"{type(e).__name__}: {e}"})
     res = {"lines": out}
     if job.get("stream"):
-        sub = run_mop({"rule": {"pattern": ["zzzz"]}, "listing": "\n".join(job["lines"]),
+        rule = {"pattern": ["zzzz"]}
+        if job.get("config"):
+            rule["config"] = job["config"]
+        sub = run_mop({"rule": rule, "listing": "\n".join(job["lines"]),
                        "modes": [["all_instructions_string", "first_find", False]]}, tmp, "p")
         res["stream"] = sub["results"][0]
     return res
